@@ -4,6 +4,7 @@ import (
 	"time"
 
 	"verifsim/gen"
+	"verifsim/simnet"
 	"verifsim/spec"
 	"verifsim/world"
 )
@@ -37,6 +38,13 @@ func GenC20(seed uint64, i int) *world.Case {
 		}
 	}
 	c.Script = append(c.Script, world.Step{Op: "scan", Of: "r1", MustSucceed: true})
+	if cfg.Executor == "cluster" && r.Chance(0.3) {
+		// "Survive transport": the reply of a Worker.Run is lost in the network (no
+		// machine is lost). Whether the driver asks the same worker again (which
+		// answers from the task it already holds) or runs the task elsewhere, the
+		// result's counters are those of one execution of each task.
+		c.Faults = append(c.Faults, &simnet.Fault{At: simnet.Match{Point: "reply", Method: "Worker.Run", Occ: 1 + r.Intn(5)}, Do: "drop"})
+	}
 	return c
 }
 
@@ -55,7 +63,7 @@ func C20(tier string, seed uint64) int {
 	exit := wb.Run()
 	n, budget := compSizes(tier, 4000, 60, 300000, 600)
 	cb := &CompBatch{Property: "C20", Engine: "scopesim", Tier: tier, Seed: seed, Level: "exploration", N: n, BudgetS: budget,
-		ExtraCoverage: map[string]any{"whole_system": wb.Summary(), "whole_system_rule": "failure-free generated programs on both executors whose map/filter/flatmap functions increment one registered counter per node; oracle: Counter.Value(result.Scope()) == the reference's per-row call count, including results of a Func over an earlier Result (scopes of both invocations' tasks merged once each)"},
+		ExtraCoverage: map[string]any{"whole_system": wb.Summary(), "whole_system_rule": "failure-free generated programs on both executors whose map/filter/flatmap functions increment one registered counter per node; oracle: Counter.Value(result.Scope()) == the reference's per-row call count, including results of a Func over an earlier Result (scopes of both invocations' tasks merged once each); in 3 of 10 cluster runs the reply of one Worker.Run is dropped in transit (no machine lost) and the totals must be unchanged"},
 		Assume: []string{"Reset racing with Incr is not required to be linearizable (only Incr/Value/Merge are documented as safe for concurrent use); after Reset(s,u) the scopes may share instances, so u is not used again in a scenario", "counters are not placed upstream of Head, Scan or shared sub-slices (how often those functions run legitimately depends on buffering and compilation)"},
 		CarryViolations: wb.violations}
 	if exit2 := cb.Run(); exit2 > exit {
